@@ -882,6 +882,44 @@ static void bt601(int Y, int U, int V, double out[3])
 }
 
 /* one case = (U, V, format, accessors) ; all 256 Y values, at even and odd x, on two rows, read by the three access modes */
+/* ---------------------------------------------------------------- dithered destinations
+ * Ordered dithering adds an offset strictly inside (0, 1) of one destination step before narrowing, so a value the destination can hold
+ * exactly is stored unchanged at EVERY position of the dither matrix: a same-format copy onto a dithered destination is the identity
+ * (0 stays 0, the maximum stays the maximum), whatever the dither offsets. */
+static void dither_case(uint64_t idx, void *vctx)
+{
+    (void)vctx;
+    static const pixman_format_code_t fm[10] = { PIXMAN_r5g6b5, PIXMAN_a4r4g4b4, PIXMAN_a1r5g5b5, PIXMAN_r3g3b2, PIXMAN_a8, PIXMAN_a8r8g8b8, PIXMAN_x2b10g10r10, PIXMAN_a2r2g2b2, PIXMAN_r8g8b8, PIXMAN_a4 };
+    static const char *fn[10] = { "r5g6b5", "a4r4g4b4", "a1r5g5b5", "r3g3b2", "a8", "a8r8g8b8", "x2b10g10r10", "a2r2g2b2", "r8g8b8", "a4" };
+    static const pixman_dither_t dm[5] = { PIXMAN_DITHER_ORDERED_BAYER_8, PIXMAN_DITHER_ORDERED_BLUE_NOISE_64, PIXMAN_DITHER_FAST, PIXMAN_DITHER_GOOD, PIXMAN_DITHER_BEST };
+    static const char *dn[5] = { "ORDERED_BAYER_8", "ORDERED_BLUE_NOISE_64", "FAST", "GOOD", "BEST" };
+    static const int offs[3][2] = { { 0, 0 }, { 5, 7 }, { 63, 1 } };
+    int dims[5] = { 10, 5, 7, 3, 2 }, d[5]; vf_decode(idx, dims, 5, d);
+    int bpp = PIXMAN_FORMAT_BPP(fm[d[0]]);
+    c10_layout_t L; c10_layout_of(fm[d[0]], &L);
+    /* values: all zeros, all ones, and five patterns of the defined bits */
+    uint32_t full = bpp == 32 ? 0xffffffffu : ((1u << bpp) - 1), pats[7] = { 0, full, 0x55555555u & full, 0xaaaaaaaau & full, 0x12345678u & full, 0x00010101u & full, 0xfefefefeu & full };
+    uint32_t val = pats[d[2]] & L.dmask;
+    enum { N = 66 };
+    int stride = ((N * bpp + 31) / 32) * 4;
+    uint8_t *sb = calloc((size_t)stride, N), *db = malloc((size_t)stride * N); memset(db, d[4] ? 0xff : 0x00, (size_t)stride * N);
+    for (int y = 0; y < N; y++) for (int x = 0; x < N; x++) c10_set_px(sb + (size_t)y * stride, bpp, x, val, full);
+    pixman_image_t *src = pixman_image_create_bits(fm[d[0]], N, N, (uint32_t *)sb, stride), *dst = pixman_image_create_bits(fm[d[0]], N, N, (uint32_t *)db, stride);
+    pixman_image_set_dither(dst, dm[d[1]]); pixman_image_set_dither_offset(dst, offs[d[3]][0], offs[d[3]][1]);
+    /* OVER from an image the library cannot prove opaque keeps the request in the general pipeline (a plain same-format SRC may be a memcpy) */
+    pixman_image_composite32(PIXMAN_OP_SRC, src, NULL, dst, 0, 0, 0, 0, 0, 0, N, N);
+    pixman_image_unref(src); pixman_image_unref(dst); vf_count_libcalls(1);
+    uint64_t h = 0;
+    for (int y = 0; y < N && !vf_failed(); y++) for (int x = 0; x < N; x++) {
+        uint32_t got = c10_get_px(db + (size_t)y * stride, bpp, x) & L.dmask;
+        h = vf_mix(h, got);
+        if (got != val) { vf_violation("c10-dithered-copy-not-identity", "format %s, destination dither %s offset (%d,%d): source pixel %#x copied (OP_SRC, same format) to (%d,%d) reads back %#x (defined bits %#x)",
+                                       fn[d[0]], dn[d[1]], offs[d[3]][0], offs[d[3]][1], val, x, y, got, L.dmask); break; }
+    }
+    free(sb); free(db);
+    if (!vf_in_confirm) { vf_count_eval((uint64_t)N * N); vf_count_nontrivial((uint64_t)N * N); vf_outcome(vf_mix(h, idx)); }
+}
+
 static void yuv_case(uint64_t idx, void *vctx)
 {
     const yuv_ctx *c = vctx;
@@ -1151,6 +1189,7 @@ int main(int argc, char **argv)
         }
         { yuv_ctx y = { cfg, th }; char nm[64]; snprintf(nm, sizeof nm, "yuv-%s", c10_cfg_names[cfg]); uint64_t nu = th ? 256 : 12; vf_space_run(nm, nu * nu * 2 * 2, yuv_case, &y); }
         { char nm[64]; snprintf(nm, sizeof nm, "yuv-chroma-position-%s", c10_cfg_names[cfg]); vf_space_run(nm, 2 * 2 * 8 * 9 * 4, yuvpos_case, NULL); }
+        if (cfg == 0 || cfg == 4) { char nm[64]; snprintf(nm, sizeof nm, "dithered-same-format-copy-%s", c10_cfg_names[cfg]); vf_space_run(nm, 10 * 5 * 7 * 3 * 2, dither_case, NULL); }
         { rgbf_ctx r = { cfg }; char nm[64]; snprintf(nm, sizeof nm, "rgb_float-%s", c10_cfg_names[cfg]); vf_space_run(nm, NMODES * 2, rgbf_case, &r); }
         if (th) {
             run_layout_space("bpp24-full", cfg, 24, -1, VM_FULL, 12, 1 << R_FETCH8 | 1 << R_STORE8 | 1 << R_SELF, 1 << M_SCAN | 1 << M_TRANS, ALLA);
